@@ -3,12 +3,14 @@
 # Each change is applied to a scratch COPY of the class files (never to the repository), the translator is run on the copy and
 # DenseOnlineGen.v / DenseOnlineGenCorrect.v are compiled against the result in a scratch directory.
 # Verdicts: "translator fails closed: <msg>" | "<lemma> fails" | "all lemmas check (generated text changed/identical)".
-# --diff: the modified Python class is also compared with its own translation (harness/denseonlinegen_check.py, 20 cases per class).
+# --diff: the modified Python class is also compared with its own translation (harness/denseonlinegen_check.py, 150 cases of that class).
+# --from K: start at the K-th change.
 import ast, glob, os, re, shutil, subprocess, sys
 ROOT = os.path.dirname(os.path.dirname(os.path.abspath(__file__)))
 REPO = os.environ.get('REPO', '/repo')
 D_STL, D_AR, D_IA = ('rtamt/semantics/stl/dense_time/online', 'rtamt/semantics/arithmetic/dense_time/online',
                      'rtamt/semantics/iastl/dense_time/online')
+D_EN = 'rtamt/semantics/enumerations'
 TH = ROOT + '/coq/theories'
 SCR = ROOT + '/build/denseonlinegen_mutants'
 
@@ -42,6 +44,19 @@ CHANGES = [
   ('M9 intersection.py: implication max(-a, b) -> max(a, -b)', sub(D_STL + '/intersection.py', 'return max(-a, b)', 'return max(a, -b)')),
   ('M10 and_operation.py: sample_left[1:] -> sample_left[2:]', sub(D_STL + '/and_operation.py', 'sample_left[1:]', 'sample_left[2:]')),
   ('M11 log_operation.py: the right buffer is not replaced by the remainder', sub(D_AR + '/log_operation.py', '        self.sample_right_buf = right\n', '')),
+  ('M12 once_timed_operation.py: popping loop a[2] < b[2] -> a[2] <= b[2]', sub(D_STL + '/once_timed_operation.py', 'while (a[2] < b[2]) and (b[0] < a[0]):', 'while (a[2] <= b[2]) and (b[0] < a[0]):')),
+  ('M13 historically_timed_operation.py: the padding piece gets -inf', sub(D_STL + '/historically_timed_operation.py', "sample[0][0] + begin, float('inf')))", "sample[0][0] + begin, -float('inf')))")),
+  ('M14 once_timed_operation.py: residual_start >= b[1] -> > b[1]', sub(D_STL + '/once_timed_operation.py', 'if self.residual_start >= b[1]:', 'if self.residual_start > b[1]:')),
+  ('M15 once_timed_operation.py: started is never set', sub(D_STL + '/once_timed_operation.py', '        if sample:\n            self.started = True\n', '')),
+  ('M16 historically_timed_operation.py: b[0] > a[0] -> b[0] >= a[0] (an empty piece is kept)', sub(D_STL + '/historically_timed_operation.py', 'if b[0] > a[0]:', 'if b[0] >= a[0]:')),
+  ('M17 once_timed_operation.py: the last piece ends at sample[i-1][0] + begin', sub(D_STL + '/once_timed_operation.py', 'b = (sample[i - 1][0] + begin, sample[i-1][0] + end, sample[i - 1][1])', 'b = (sample[i - 1][0] + begin, sample[i-1][0] + begin, sample[i - 1][1])')),
+  ('M18 since_timed_operation.py: historically over [0, end] instead of [0, begin]', sub(D_STL + '/since_timed_operation.py', 'HistoricallyTimedOperation(0, self.begin)', 'HistoricallyTimedOperation(0, self.end)')),
+  ('M19 since_timed_operation.py: once is fed the left operand', sub(D_STL + '/since_timed_operation.py', 'out1 = self.once.update(sample_right)', 'out1 = self.once.update(sample_left)')),
+  ('M20 constant_operation.py: is_first_sample is never cleared', sub(D_STL + '/constant_operation.py', '            self.is_first_sample = False\n', '')),
+  ('M21 predicate_operation.py update: LEQ / LESS give i[1] instead of -i[1]', sub(D_STL + '/predicate_operation.py', '                out_val = - i[1]\n', '                out_val = i[1]\n')),
+  ('M22 predicate_operation.py sat: LEQ tests < 0', sub(D_STL + '/predicate_operation.py', 'out_val = True if in_sample[1] <= 0 else False', 'out_val = True if in_sample[1] < 0 else False')),
+  ('M23 iastl predicate_operation.py: OUTPUT_ROBUSTNESS looks at in_vars', sub(D_IA + '/predicate_operation.py', 'self.semantics == Semantics.OUTPUT_ROBUSTNESS and not self.out_vars', 'self.semantics == Semantics.OUTPUT_ROBUSTNESS and not self.in_vars')),
+  ('M24 iastl predicate_operation.py: the vacuity value is +inf', sub(D_IA + '/predicate_operation.py', '                sample = 0\n', "                sample = float('inf')\n")),
   ('R1 rename a local (result -> res) in or_operation.py', sub(D_STL + '/or_operation.py', 'result', 'res', 99)),
   ('R2 reorder two independent statements in not_operation.py', sub(D_STL + '/not_operation.py', 'out_time = i[0]\n            out_value = - i[1]', 'out_value = - i[1]\n            out_time = i[0]')),
   ('R3 else: if -> elif in and_operation.py', sub(D_STL + '/and_operation.py', '            else:\n                if last[0] > result[-1][0]:\n                    result.append(last)',
@@ -50,8 +65,18 @@ CHANGES = [
   ('R5 if not result / else swapped to if result / else in iff_operation.py', sub(D_STL + '/iff_operation.py',
       '            if not result:\n                result.append(last)\n            else:\n                if last[0] > result[-1][0]:\n                    result.append(last)',
       '            if result:\n                if last[0] > result[-1][0]:\n                    result.append(last)\n            else:\n                result.append(last)')),
+  ('R6 rename a local (first_now -> fn) in once_timed_operation.py', sub(D_STL + '/once_timed_operation.py', 'first_now', 'fn', 9)),
+  ('R7 the two buffer assignments swapped in since_timed_operation.py update', sub(D_STL + '/since_timed_operation.py',
+      '        self.sample_left_buf = self.sample_left_buf + sample_left\n        self.sample_right_buf = self.sample_right_buf + sample_right\n\n        out1 = self.once.update',
+      '        self.sample_right_buf = self.sample_right_buf + sample_right\n        self.sample_left_buf = self.sample_left_buf + sample_left\n\n        out1 = self.once.update')),
+  ('R8 if / elif chain of predicate update written as else: if', sub(D_STL + '/predicate_operation.py',
+      "            elif self.comparison_op.value == StlComparisonOperator.NEQ.value:\n                out_val = abs(i[1])\n            elif self.comparison_op.value == StlComparisonOperator.LEQ.value or self.comparison_op.value == StlComparisonOperator.LESS.value:\n                out_val = - i[1]\n            elif self.comparison_op.value == StlComparisonOperator.GEQ.value or self.comparison_op.value == StlComparisonOperator.GREATER.value:\n                out_val = i[1]\n            else:\n                out_val = float('nan')\n\n\n            sample_result.append([i[0], out_val])\n            prev = out_val\n\n        return sample_result\n\n    def update_final",
+      "            else:\n                if self.comparison_op.value == StlComparisonOperator.NEQ.value:\n                    out_val = abs(i[1])\n                elif self.comparison_op.value == StlComparisonOperator.LEQ.value or self.comparison_op.value == StlComparisonOperator.LESS.value:\n                    out_val = - i[1]\n                elif self.comparison_op.value == StlComparisonOperator.GEQ.value or self.comparison_op.value == StlComparisonOperator.GREATER.value:\n                    out_val = i[1]\n                else:\n                    out_val = float('nan')\n\n\n            sample_result.append([i[0], out_val])\n            prev = out_val\n\n        return sample_result\n\n    def update_final")),
   ('X1 a new operation file', newfile(D_STL + '/foo_operation.py', 'class FooOperation:\n    pass\n')),
-  ('X2 a pinned (hand-modelled) class changed: once_timed_operation.py', sub(D_STL + '/once_timed_operation.py', 'self.prev = []', 'self.prev = list()')),
+  ('X2 a pinned (hand-modelled) class changed: variable_operation.py', sub(D_STL + '/variable_operation.py', 'out = list()', 'out = []')),
+  ('X6 an owned list escapes: once_timed_operation.py returns self.prev', sub(D_STL + '/once_timed_operation.py', '        return sample_result\n\n    def update_final', '        return self.prev\n\n    def update_final')),
+  ('X7 comp_oper.py: two members of StlComparisonOperator get the same value', sub(D_EN + '/comp_oper.py', 'NEQ = 3', 'NEQ = 2')),
+  ('X8 predicate_operation.py: sat_final (pinned) changed', sub(D_STL + '/predicate_operation.py', "input_list = self.sub.update_final(sample_left, sample_right)\n\n        prev = float('nan')\n        for i, in_sample", "input_list = self.sub.update(sample_left, sample_right)\n\n        prev = float('nan')\n        for i, in_sample")),
   ('X3 intersection() (hand-modelled) changed', sub(D_STL + '/intersection.py', 'out_samples = list()', 'out_samples = []')),
   ('X4 an unsupported construct (try/except) in abs_operation.py', sub(D_AR + '/abs_operation.py', '            out_value = abs(in_sample[1])',
       '            try:\n                out_value = abs(in_sample[1])\n            except TypeError:\n                out_value = in_sample[1]')),
@@ -71,7 +96,7 @@ def strip(t): return re.sub(r'\(\* [\w.]+:\d+ \*\)', '', t)
 def run(name, mut):
     d = SCR + '/' + name.split()[0]
     shutil.rmtree(d, ignore_errors=True)
-    for sd in (D_STL, D_AR, D_IA):
+    for sd in (D_STL, D_AR, D_IA, D_EN):
         os.makedirs(d + '/root/' + sd)
         for p in glob.glob('%s/%s/*.py' % (REPO, sd)): shutil.copy(p, d + '/root/' + sd + '/')
     os.makedirs(d + '/coq')
@@ -85,20 +110,23 @@ def run(name, mut):
     cor = open(TH + '/DenseOnlineGenCorrect.v').read()
     assert '\n  DenseOnlineGen.' in cor
     open(d + '/coq/MutCorrect.v', 'w').write(cor.replace('\n  DenseOnlineGen.', '.\nFrom Mut Require Import MutGen.', 1))
-    for f in ['MutGen.v', 'MutCorrect.v']:
+    win = open(TH + '/DenseOnlineGenWinCorrect.v').read()
+    assert '\n  DenseOnlineGen DenseOnlineGenCorrect.' in win
+    open(d + '/coq/MutWinCorrect.v', 'w').write(win.replace('\n  DenseOnlineGen DenseOnlineGenCorrect.', '.\nFrom Mut Require Import MutGen MutCorrect.', 1))
+    for f in ['MutGen.v', 'MutCorrect.v', 'MutWinCorrect.v']:
         r = subprocess.run(['timeout', '600', 'coqc', '-Q', TH, 'RV', '-Q', '.', 'Mut', f], cwd=d + '/coq', capture_output=True, text=True)
         if r.returncode != 0:
             m = re.search(r'line (\d+)', r.stderr)
             err = ' '.join(r.stderr.split('Error:')[-1].split())[:110]
             what = lemma_at(d + '/coq/' + f, int(m.group(1))) if m else '?'
-            return rel, 'translated; %s fails (%s...)' % (what if f == 'MutCorrect.v' else 'the generated file does not compile: ' + what, err)
+            return rel, 'translated; %s fails (%s...)' % (what if f != 'MutGen.v' else 'the generated file does not compile: ' + what, err)
     return rel, 'translated (generated text %s); all lemmas check' % ('identical' if same else 'changed')
 
 def diff(name, rel):
     d = SCR + '/' + name.split()[0]
     if not os.path.exists(d + '/coq/MutGen.vo') or rel is None or not rel.endswith('_operation.py'): return None
     env = dict(os.environ, PYTHONDONTWRITEBYTECODE='1', PYTHONPATH=REPO)
-    r = subprocess.run(['/venv/bin/python', ROOT + '/harness/denseonlinegen_check.py', '--n', '20', '--class-file', '%s=%s' % (rel, d + '/root/' + rel),
+    r = subprocess.run(['/venv/bin/python', ROOT + '/harness/denseonlinegen_check.py', '--n', '150', '--class-only', '--class-file', '%s=%s' % (rel, d + '/root/' + rel),
                         '--gen', d + '/coq/MutGen.v', d + '/coq/Cases.v'], capture_output=True, text=True, env=env)
     if r.returncode != 0: return 'harness error: ' + r.stderr[-300:]
     txt = open(d + '/coq/Cases.v').read().replace(' DenseOnlineGen.', '.\nFrom Mut Require Import MutGen.', 1)
@@ -108,7 +136,8 @@ def diff(name, rel):
 
 if __name__ == '__main__':
     out = []
-    for name, mut in CHANGES:
+    k0 = int(sys.argv[sys.argv.index('--from') + 1]) if '--from' in sys.argv else 0
+    for name, mut in CHANGES[k0:]:
         rel, v = run(name, mut)
         out.append('%s\n    -> %s' % (name, v)); print(out[-1], flush=True)
         if '--diff' in sys.argv:
